@@ -3,7 +3,7 @@
    Ring structure (registered for the `ring` tactic), conjugation, real / imaginary part, finite sums. *)
 From Coq Require Import ZArith List Bool Ring Lia.
 Import ListNotations.
-Open Scope Z_scope.
+Local Open Scope Z_scope.
 
 Definition C : Type := (Z * Z)%type.
 
@@ -20,6 +20,16 @@ Definition cofZ (z : Z) : C := (z, 0).
 Definition ceqb (a b : C) : bool := (fst a =? fst b) && (snd a =? snd b).
 Definition cis0 (a : C) : bool := ceqb a c0.
 Definition creal (a : C) : Prop := snd a = 0.      (* "has no imaginary part" *)
+
+Arguments cadd : simpl never.
+Arguments cmul : simpl never.
+Arguments copp : simpl never.
+Arguments csub : simpl never.
+Arguments cconj : simpl never.
+Arguments cre : simpl never.
+Arguments cim : simpl never.
+Arguments cis0 : simpl never.
+Arguments ceqb : simpl never.
 
 Declare Scope C_scope.
 Delimit Scope C_scope with C.
@@ -76,7 +86,7 @@ Lemma creal_im a : creal (cim a).                            Proof. reflexivity.
 Lemma creal_conj a : creal a -> cconj a = a.                 Proof. intros; cdestruct; subst; reflexivity. Qed.
 
 (* finite sums *)
-Definition csum (l : list C) : C := fold_right cadd c0 l.
+Fixpoint csum (l : list C) : C := match l with [] => c0 | x :: l' => cadd x (csum l') end.
 
 Lemma csum_app l1 l2 : csum (l1 ++ l2) = (csum l1 + csum l2)%C.
 Proof. induction l1 as [|x l1 IH]; cbn; [ring | rewrite IH; ring]. Qed.
